@@ -14,10 +14,10 @@ PARTIAL = ['proved for ALL strictly parsing inputs that are representable in the
            'exhaustiveness theorem C02.parse_sound: a representable strict parse IS the tree of a well-formed document): the '
            'serialised text re-parses, in both tolerance modes, to a tree of the same shape and the same text. Side '
            'conditions: no NUL/DEL; the property\'s own (no bare sizing prefix as a command name; environment names written '
-           'plainly after \\begin – finding F4b); representability: no made-up arguments, fixed-signature commands with their '
-           'arguments as declared, `{name}` groups of one token, no backslash at the very end (the former proof gap – an '
+           'plainly after \\begin – finding F4b); representability: no made-up arguments, fixed-signature commands with all '
+           'their required brace groups (continuation arguments `\\section{a}[b]` included), `{name}` groups of one token, no backslash at the very end (the former proof gap – an '
            'argument-less command directly followed by a brace group in the body of a math-mode environment – is closed: '
-           'Gram.peekCond_of_peek). Outside these (made-up arguments, `\\def` at the end of input, `\\section{a}[b]`) the squeeze case '
+           'Gram.peekCond_of_peek). Outside these (made-up arguments, `\\def` at the end of input, several-token environment names) the squeeze case '
            'is explored by the oracle; the no-drop case is proved for all inputs']
 TRUSTED = ['harness/gen_tables.py', 'correspondence harness (parsecorr.py): parse of s and of the serialised text',
            'modelled, not verified: control flow of reader.py, tokens.py, data.py serialisers']
